@@ -292,6 +292,33 @@ fn type_items_empty_rule(cx: &Cx, rep: &mut Report) {
         fields.iter().any(|(n, v)| *n == de && matches!(v, Val::Bool(false))) && fields.iter().filter(|(n, _)| *n != de).all(|(n, v)| if n == ".." { matches!(v, Val::Sym { path, .. } if path == "kinds") } else { v.any(&|y| matches!(y, Val::Atom(crate::eval::F::A(a)) if *a == format!("kinds.{n}")) || matches!(y, Val::Sym { path, .. } if *path == format!("kinds.{n}"))) })
     } _ => false };
     rep.check(ok, "ES-type-items-empty", &f.qual, "flag-off", &format!("the helper-kind set used for the type's own attributes is not `the same set with derive_ex switched off`: {:?}", outs.iter().map(|(_, fl)| match fl { Flow::Val(v) | Flow::Ret(v) => v.short(), _ => "?".into() }).collect::<Vec<_>>()), &format!("{}:{} {}", f.file, f.line, f.qual), json!({}));
+    // with the flag off the parser of a helper-attribute set reads no `#[derive_ex(..)]` at all; with it on, it reads them
+    if let Some(pf) = find_fn(ix, &|g| g.self_ty.as_deref() == Some("HelperAttributes") && sig_text(g).contains("&[Attribute]") && sig_text(g).contains("&HelperAttributeKinds")) {
+        let items_f = ix.structs.get("HelperAttributes").and_then(|s| s.fields.iter().find(|(_, t)| crate::index::ty_str(t).starts_with("HashMap<")).map(|(n, _)| n.clone()));
+        for flag in [false, true] {
+            let mut ev = mk_ev(ix);
+            // the per-attribute parsers are not the subject here
+            let cg0 = crate::roles::CallGraph::build(ix);
+            for c in cg0.edges.get(&pf.qual).cloned().unwrap_or_default() { if c != pf.qual && ix.get_fn(&c).is_some() { ev.stops.push((c.clone(), "opaque")); } }
+            let kinds = Val::Struct { name: "HelperAttributeKinds".into(), fields: vec![(de.clone(), Val::Bool(flag)), ("..".into(), Val::Sym { ty: Ty::Named("HelperAttributeKinds".into(), vec![]), path: "kinds".into() })] };
+            let outs = ev.call_fn(St::new(), &pf, None, vec![Val::Sym { ty: Ty::Slice(Box::new(Ty::Named("Attribute".into(), vec![]))), path: "attrs".into() }, Val::Sym { ty: Ty::Named("AttributeTarget".into(), vec![]), path: "target".into() }, kinds]);
+            rep.unanalysable(&pf.qual, &ev.unsupported.borrow());
+            let mut n_ok = 0;
+            let mut bad = Vec::new();
+            for (_, fl) in &outs {
+                let (Flow::Val(Val::Enum { var, args, .. }) | Flow::Ret(Val::Enum { var, args, .. })) = fl else { continue };
+                if var != "Ok" { continue; }
+                let Some(Val::Struct { fields, .. }) = args.first() else { continue };
+                let Some(iv) = fields.iter().find(|(n, _)| Some(n) == items_f.as_ref()).map(|(_, v)| v) else { bad.push("the set of nested derive_ex entries is not part of the result".to_string()); continue };
+                n_ok += 1;
+                let reads = iv.any(&|y| matches!(y, Val::Sym { path, .. } if path.starts_with("attrs")));
+                if reads != flag { bad.push(format!("derive_ex {}: nested entries = {}", if flag { "on" } else { "off" }, iv.short().chars().take(120).collect::<String>())); }
+            }
+            if std::env::var("GENLINT_DEBUG_WCB").is_ok() { eprintln!("TI flag={flag} n_ok={n_ok} outs={} bad={bad:?}", outs.len()); }
+            bad.sort(); bad.dedup();
+            rep.check(n_ok > 0 && bad.is_empty(), "ES-type-items-empty", &pf.qual, if flag { "flag-on-reads" } else { "flag-off-empty" }, &format!("nested `#[derive_ex(..)]` attributes are not read exactly when the helper-kind set says so ({} successful paths; {})", n_ok, bad.join("; ")), &format!("{}:{} {}", pf.file, pf.line, pf.qual), json!({}));
+        }
+    } else { rep.fail("unanalysable", "HelperAttributes", "from_attrs", "(attrs, target, kinds) -> Result<Self> not found", "item_type.rs", json!({})); }
     // and both entry cores use it for the type-level parse
     let cg = crate::roles::CallGraph::build(ix);
     for kind in ["struct", "enum"] {
@@ -312,7 +339,7 @@ pub fn c04(cx: &Cx) -> i32 {
     rep.assumptions = vec![
         "the type-level helper-attribute set carries no derive_ex entries (it is built with derive_ex = false; those entries are the derive entries themselves)".into(),
         "whether an ignored / unused field reaches its field-level bound(...) is not documented and not judged".into(),
-        "`Bound::parse` (which tokens inside bound(...) are a type, a predicate or `..`) is syn ParseStream logic and is trusted, not modelled".into(),
+        "what syn's own parsers accept as a where-predicate / a type inside bound(...) is trusted; the order in which `Bound::parse` tries `..`, predicate, type is modelled (DM-bound-syntax)".into(),
     ];
     rep.finish("other", "static analysis: for every builder role and every path, the ordered trace of where-clause pushes (classified by the declared types of the pushed places, not by names) equals the documented resolution: type level (helper chain most specific first, per-trait, shared), then per variant, then per field, each level reached only while all earlier levels of its own scope chain continue; plus the decision model of Bounds::from / push (absent, bound(), `..`) and of the where-clause builder", "rule instances = (role, successful path)")
 }
@@ -323,6 +350,8 @@ pub fn c03(cx: &Cx) -> i32 {
     crate::misc::wcb_rule(cx, &mut rep);
     crate::misc::mentions_param_rule(cx, &mut rep);
     crate::props_hyg::where_rules(cx, &mut rep);
+    // debug-ignored / valued / unmarked: the attributes that take a field out of the body must be asked at all
+    crate::props_tp::consulted_rule(cx, &mut rep, &["Debug", "Default"]);
     // "comparison-ignored fields contribute no bound": the push is judged against the code the generator emits for a field,
     // so which fields are ignored must itself be the documented decision (the DM-ignore tables of all five comparison traits)
     {
